@@ -67,6 +67,41 @@ func c17pair(x, y []float64, class string) {
 	}
 }
 
+// the same pair, but the two vectors (and a bystander) are VIEWS into one flat table with spare capacity behind each view
+// -- rows of a matrix, windows of a series -- as a caller that keeps its objective vectors in one allocation hands them
+// over: the verdicts are those of the values, and a comparison changes nobody's values
+func c17shared(x, y []float64) {
+	n := len(x)
+	if n == 0 || len(y) != n {
+		return
+	}
+	tbl := make([]float64, 3*n)
+	copy(tbl, x)
+	copy(tbl[n:], y)
+	copy(tbl[2*n:], x)
+	a := dominance.Float64Vector(tbl[0:n])     // capacity 3n: the other rows lie behind it
+	b := dominance.Float64Vector(tbl[n : 2*n]) // capacity 2n
+	before := append([]float64{}, tbl...)
+	c17stats["pairs_shared_storage"]++
+	dom := obsBool(func() bool { return a.Dominates(&b) })
+	by := obsBool(func() bool { return a.IsDominatedBy(&b) })
+	nod := obsBool(func() bool { return a.NoDominancePresent(&b) })
+	self := obsBool(func() bool { return a.Dominates(&a) })
+	back := obsBool(func() bool { return b.Dominates(&a) })
+	same := true
+	for i := range tbl {
+		if math.Float64bits(tbl[i]) != math.Float64bits(before[i]) {
+			same = false
+		}
+	}
+	want, wantBy := paretoLt(x, y), paretoLt(y, x)
+	if !same || dom != tf(want) || by != tf(wantBy) || back != tf(wantBy) || nod != tf(!want && !wantBy) || self != "F" {
+		emit(J{"kind": "oracle", "what": "vectors that are views into one table with spare capacity: verdicts differ from the strict Pareto order of their values, or a comparison changed the table",
+			"x": x, "y": y, "dominates": dom, "isDominatedBy": by, "noDominance": nod, "x_dominates_x": self, "y_dominates_x": back,
+			"expected_dominates": want, "expected_isDominatedBy": wantBy, "table_before": before, "table_after": tbl})
+	}
+}
+
 func tf(b bool) string {
 	if b {
 		return "T"
@@ -119,6 +154,7 @@ func runC17(args []string) {
 		for _, x := range vs {
 			for _, y := range vs {
 				c17pair(x, y, "grid_exhaustive")
+				c17shared(x, y)
 			}
 		}
 	}
